@@ -394,8 +394,14 @@ impl EncodingVersion for EncodingVersion2 {
                 3 => 8,
                 4 => deserializer.deserialize_primitive_type::<u32>()?,
                 5 => deserializer.deserialize_primitive_type::<u32>()?,
-                6 => 4 * deserializer.deserialize_primitive_type::<u32>()?,
-                7 => 8 * deserializer.deserialize_primitive_type::<u32>()?,
+                6 => deserializer
+                    .deserialize_primitive_type::<u32>()?
+                    .checked_mul(4)
+                    .ok_or(XTypesError::InvalidData)?,
+                7 => deserializer
+                    .deserialize_primitive_type::<u32>()?
+                    .checked_mul(8)
+                    .ok_or(XTypesError::InvalidData)?,
                 _ => unimplemented!("LC not possible"),
             };
 
@@ -683,7 +689,7 @@ impl<'a, E: EndiannessRead, V: EncodingVersion> XTypesDeserializer<'a, E, V> {
             deserializer: &mut XTypesDeserializer<'a, E, V>,
             length: usize,
         ) -> XTypesResult<Vec<O>> {
-            let mut sequence = Vec::with_capacity(length);
+            let mut sequence = Vec::with_capacity(deserializer.reader.capacity_for(length));
             for _ in 0..length {
                 sequence.push(deserializer.deserialize_primitive_type()?);
             }
@@ -756,14 +762,14 @@ impl<'a, E: EndiannessRead, V: EncodingVersion> XTypesDeserializer<'a, E, V> {
             ),
             TypeKind::CHAR16 => todo!(),
             TypeKind::STRING8 => {
-                let mut values = Vec::with_capacity(length);
+                let mut values = Vec::with_capacity(self.reader.capacity_for(length));
                 for _ in 0..length {
                     values.push(self.deserialize_string_type()?);
                 }
                 dynamic_data.set_string_values(member.get_id(), values)
             }
             TypeKind::STRING16 => {
-                let mut values = Vec::with_capacity(length);
+                let mut values = Vec::with_capacity(self.reader.capacity_for(length));
                 for _ in 0..length {
                     values.push(self.deserialize_wstring_type()?);
                 }
@@ -793,7 +799,7 @@ impl<'a, E: EndiannessRead, V: EncodingVersion> XTypesDeserializer<'a, E, V> {
             }
             TypeKind::ANNOTATION => todo!(),
             TypeKind::ENUM | TypeKind::STRUCTURE | TypeKind::UNION => {
-                let mut values = Vec::with_capacity(length);
+                let mut values = Vec::with_capacity(self.reader.capacity_for(length));
                 for _ in 0..length {
                     values.push(self.deserialize_as_nested(element_type)?);
                 }
@@ -972,7 +978,7 @@ impl<'a, E: EndiannessRead, V: EncodingVersion> XTypesDeserializer<'a, E, V> {
             return Ok(String::new());
         }
         let num_units = length.saturating_sub(1) as usize;
-        let mut units = Vec::with_capacity(num_units);
+        let mut units = Vec::with_capacity(self.reader.capacity_for(num_units));
         for _ in 0..num_units {
             let unit = self.deserialize_primitive_type::<u16>()?;
             units.push(unit);
@@ -1300,6 +1306,12 @@ impl<'a> Reader<'a> {
         let ret = &self.buffer[self.pos..self.pos + length];
         self.pos += length;
         Ok(ret)
+    }
+
+    /// Capacity to reserve for `length` announced elements: never more than the bytes left to read,
+    /// since every element occupies at least one byte of the buffer
+    fn capacity_for(&self, length: usize) -> usize {
+        core::cmp::min(length, self.buffer.len().saturating_sub(self.pos))
     }
 
     fn seek(&mut self, v: usize) -> XTypesResult<()> {
